@@ -217,6 +217,14 @@ Respond ==
              /\ states' = Append(states, "closed")
              /\ log' = Append(log, <<"s", "closed", n>>)
              /\ UNCHANGED hij
+        ELSE IF cur.kind = "hijackfail"
+        THEN \* a hijack was requested but the hand-over itself fails (the connection refuses the
+             \* deadline reset that precedes it): the hijack handler is never started, the
+             \* connection is closed like any other and is never reported as hijacked
+             /\ phase' = "closed" /\ srvClosed' = TRUE
+             /\ states' = Append(states, "closed")
+             /\ log' = Append(log, <<"s", "closed", n>>)
+             /\ UNCHANGED hij
         ELSE IF IsHijack(cur)
         THEN \* hand the connection over: everything the client sent after this request
              \* belongs to the hijack handler, in order
@@ -267,8 +275,10 @@ ActiveNeedsByte ==
 CloseIffHeader ==
   \A i \in DOMAIN resps :
      (resps[i].conn = "close") => (i = Len(resps) /\ (srvClosed \/ hij.on))
+\* (a connection that fails under the server - here: at a hijack hand-over - is closed as well)
 ClosedOnlyAfterClose ==
-  (srvClosed /\ ~cliClosed /\ ~cliStalled) => (resps # <<>> /\ resps[Len(resps)].conn = "close")
+  (srvClosed /\ ~cliClosed /\ ~cliStalled /\ cur.kind # "hijackfail") =>
+     (resps # <<>> /\ resps[Len(resps)].conn = "close")
 
 \* C10: HTTP/1.0 keep-alive responses carry Connection: keep-alive
 \* C01/C02 interface: requests are dispatched in order, each at most once
